@@ -167,6 +167,11 @@ type Muxers struct {
 
 func quietLog() *logrus.Entry {
 	l := logrus.New()
+	if os.Getenv("VERIF_LOG") != "" {
+		l.SetOutput(os.Stderr)
+		l.SetLevel(logrus.TraceLevel)
+		return logrus.NewEntry(l)
+	}
 	l.SetOutput(io.Discard)
 	l.SetLevel(logrus.PanicLevel)
 	return logrus.NewEntry(l)
